@@ -43,7 +43,7 @@ def gen_cases(tier, rnd):
             cases.append(("merge", evs, rnd.choice(KEYLISTS)))
         elif r < 0.5:
             key = rnd.choice(["k1", "k2"])
-            bearing = [dict(e, data=dict(e["data"], **{key: e["data"].get(key, rnd.choice(["v1", "v2", "L1"]))})) for e in evs]
+            bearing = [dict(e, data=dict(e["data"], **{key: e["data"].get(key, rnd.choice(["v1", "v2", "L1", "L2"]))})) for e in evs]
             if rnd.random() < 0.5:
                 bearing.sort(key=lambda e: e["ts"])
                 t = 0
@@ -58,7 +58,7 @@ def gen_cases(tier, rnd):
         elif r < 0.8:
             cases.append(("sum", evs))
         else:
-            cases.append(("filter", evs, rnd.choice(["k1", "k2", "k9"]), tuple(rnd.sample(["v1", "v2", "L1", "null"], rnd.randint(0, 3)))))
+            cases.append(("filter", evs, rnd.choice(["k1", "k2", "k9"]), tuple(rnd.sample(["v1", "v2", "L1", "null", "L0", "L2"], rnd.randint(0, 3)))))
     return cases
 
 
